@@ -1112,6 +1112,7 @@ impl<'a> Gen<'a> {
             values,
             faults: vec![],
             override_write: self.r.chance(self.cfg.override_write, 1000),
+            rebuild_signals: self.r.chance(300, 1000),
         }
     }
 
